@@ -286,3 +286,45 @@ func c14PairwisePredicate(c *Ctx, h *core.FuncInfo, oi, ni int, equals *types.Fu
 	}
 	return n > 0
 }
+
+// c14R9: the fingerprints a handshake is verified against are those of the ACCEPTED Start: in prepareStart the store of
+// DTLSTransport.remoteParameters is reachable only after the state guard passed - no return with a possibly non-nil error
+// is reachable after the store. (A second Start, rejected with InvalidStateError, must not replace the fingerprints a
+// handshake already in flight is checked against.)
+func c14R9(c *Ctx) {
+	r := c.R
+	const rule = "C14.R9"
+	fi := c.mustFunc(rule, "", "DTLSTransport.prepareStart")
+	rpF := c.mustField(rule, "", "DTLSTransport", "remoteParameters")
+	if fi == nil || rpF == nil {
+		return
+	}
+	g := c.P.GraphOf(fi)
+	info := g.Info
+	var stores []int
+	for _, n := range g.Nodes {
+		if as, ok := n.Ast.(*ast.AssignStmt); ok {
+			for _, l := range as.Lhs {
+				if core.FieldOf(info, l) == rpF {
+					stores = append(stores, n.ID)
+				}
+			}
+		}
+	}
+	if len(stores) == 0 {
+		r.Undecided(rule, "prepareStart|remoteParameters-stored-only-by-an-accepted-start", c.P.Pos(fi.Decl.Pos()), "prepareStart no longer stores remoteParameters directly")
+		return
+	}
+	reach := g.Reach(stores, nil, nil)
+	var bad []string
+	for x := range reach {
+		if ret, ok := g.Nodes[x].Ast.(*ast.ReturnStmt); ok {
+			if mf, _ := g.ReturnMayFail(ret, nil); mf {
+				bad = append(bad, c.P.Pos(ret.Pos()))
+			}
+		}
+	}
+	r.Cells++
+	r.Check(len(bad) == 0, rule, "prepareStart|remoteParameters-stored-only-by-an-accepted-start", c.P.Pos(g.PosOf(stores[0])), "no failing return is reachable after the remote parameters were stored",
+		"prepareStart can fail (at "+strings.Join(bad, ", ")+") after it has already replaced t.remoteParameters: a Start that is rejected (transport not new) still swaps the fingerprints the running handshake's certificate check reads")
+}
